@@ -62,6 +62,7 @@ func genStream(r *Rng, ts []pduType, nItems int, small bool) (items []streamItem
 // checkStream runs the direct property test for one (stream, schedule) and returns the observations.
 func checkStream(r *Run, items []streamItem, data []byte, sched []int, tag string) []readObs {
 	obs := readAll(data, sched, len(items)+2)
+	r.SetReplay(replayStream(data, sched))
 	in := fmt.Sprintf("readstream %x sched=%s", data, schedString(sched))
 	if len(in) > 3000 {
 		in = fmt.Sprintf("readstream %s sched=%s (seed-derived; %d items)", shortHex(data), schedString(sched), len(items))
@@ -178,6 +179,7 @@ func corrC03(r *Run) {
 			}
 			for k := 0; k < total; k++ {
 				sched := randomSched(r.Rng, k)
+				r.SetReplay(replayStream(data[:k], sched))
 				obs := readAll(data[:k], sched, len(items)+2)
 				last := obs[len(obs)-1]
 				r.Count(fmt.Sprintf("trunc/%d/%d", s, k), !bounds[k], "truncation point")
